@@ -667,8 +667,8 @@ theorem csSub_zero (s : ClusterSite d) (h : v = iZero) : csSub s v = s := by
   · funext k; simp [csSub, csAdd, iAdd, iNeg, iZero]
 
 /-- the constructor produces a re-centred cluster -/
-theorem make_first {lis : List (ClusterSite d)} {t v ns : Bool} {a : Cluster d}
-    (h : Cluster.make lis t v ns = .ok a) :
+theorem make_first {mark : Bool} {lis : List (ClusterSite d)} {t v ns : Bool} {a : Cluster d}
+    (h : Cluster.make mark lis t v ns = .ok a) :
     (∃ s0 rest, a.sites = s0 :: rest ∧ s0.R = iZero) ∧ a.transition = t ∧ a.vacancy = v := by
   unfold Cluster.make at h
   simp only at h
@@ -916,8 +916,8 @@ theorem cluster_hash_respects_eq {a b : Cluster d} (ha : a.WF) (hb : b.WF)
 
 /-- `Cluster.__init__` yields a well-formed cluster whenever a transition cluster is given its two
     transition sites -/
-theorem make_wf {lis : List (ClusterSite d)} {t v ns : Bool} {a : Cluster d}
-    (h : Cluster.make lis t v ns = .ok a) (h2 : t = true → 2 ≤ lis.length) : a.WF := by
+theorem make_wf {mark : Bool} {lis : List (ClusterSite d)} {t v ns : Bool} {a : Cluster d}
+    (h : Cluster.make mark lis t v ns = .ok a) (h2 : t = true → 2 ≤ lis.length) : a.WF := by
   obtain ⟨hf, ht, _⟩ := make_first h
   refine ⟨hf, fun htt => ?_⟩
   rw [ht] at htt
@@ -946,8 +946,8 @@ def site1 (x : Int) : ClusterSite 1 := { c := 0, i := 0, R := fun _ => x }
     repeated sites, {0,0,1,2,2} and {0,1,1,1,2}, compare equal (same set of shifted positions
     {-5,0,5}) but their XOR hashes differ for a suitable per-site hash. -/
 theorem cluster_hash_needs_distinct_sites :
-    ((Cluster.make [site1 0, site1 0, site1 1, site1 2, site1 2] false false true).bind fun a =>
-     (Cluster.make [site1 0, site1 1, site1 1, site1 1, site1 2] false false true).bind fun b =>
+    ((Cluster.make true [site1 0, site1 0, site1 1, site1 2, site1 2] false false true).bind fun a =>
+     (Cluster.make true [site1 0, site1 1, site1 1, site1 1, site1 2] false false true).bind fun b =>
      (Cluster.eq a b).map fun r =>
        (r, Cluster.hash (fun l => if l = [0, 0, -5] then 1 else 0) a,
            Cluster.hash (fun l => if l = [0, 0, -5] then 1 else 0) b)) = .ok (true, 0, 1) := by
@@ -974,7 +974,7 @@ example : (∃ ga, a.g cr 1 g = .ok ga) ∧ (∃ gb, b.g cr 1 g = .ok gb) :=
 
 /-- well-formed clusters exist (hypotheses of the cluster theorems), also transition clusters -/
 example : ∃ c : Cluster 1, c.WF ∧ c.transition = true :=
-  match h : Cluster.make [site1 3, site1 4, site1 7] true false true with
+  match h : Cluster.make true [site1 3, site1 4, site1 7] true false true with
   | .ok c => ⟨c, make_wf h (by decide), (make_first h).2.1⟩
   | .error _ => by simp [Cluster.make] at h
 end Ex
